@@ -177,6 +177,11 @@ func runC21(r *core.Run) {
 		if rng.Intn(10) == 0 {
 			rows = 0
 		}
+		if c.Index%16 == 7 {
+			// more entities than the largest default page (100) and page sizes around it
+			rows = 101 + rng.Intn(40)
+			r.Count("walks_over_more_than_100_entities", 1)
+		}
 		for i := 0; i < rows; i++ {
 			acct := fmt.Sprintf("acc:%02d", rng.Intn(12))
 			asset := []string{"USD", "EUR/2", "COIN"}[rng.Intn(3)]
@@ -205,6 +210,9 @@ func runC21(r *core.Run) {
 		pageSize := 1 + rng.Intn(rows+2)
 		if rng.Intn(3) == 0 {
 			pageSize = 1 + rng.Intn(4)
+		}
+		if rows > 100 {
+			pageSize = []int{99, 100, 101, 150}[rng.Intn(4)]
 		}
 		var builder query.Builder
 		filter := "none"
